@@ -100,6 +100,45 @@ func checkStateResponse(c *fw.Ctx) {
 		}
 		c.Check(aligned, rule, "signature errors are matched by index with the verified list", c.P.Pos(call.Pos()), "", "the list given to VerifyAllEventSignatures is not the one indexed together with the errors")
 	}
+	// every event that can be returned is verified: the list given to VerifyAllEventSignatures
+	// takes every entry of both lists; an entry skipped because its event ID was seen before
+	// (a copy with the same ID in the other list) is returned without ever being checked
+	for _, vc := range deepCallsTo(fn, fw.NameIs("gmsl.VerifyAllEventSignatures")) {
+		arg := vc.Call.Common().Args[1]
+		construct := "every event of both lists is among the verified events"
+		n, bad := 0, ""
+		for _, dc := range fw.AllDeepCalls(fn, stopExported) {
+			if fw.CalleeName(dc.Call) != "builtin.append" {
+				continue
+			}
+			av, isV := dc.Call.(ssa.Value)
+			if !isV {
+				continue
+			}
+			if fw.Derives3In(arg, vc.Fr, fw.FlowSpec{IsSource: func(v ssa.Value) bool { return v == av }, Through: func(cl ssa.CallInstruction) []int {
+				if fw.CalleeName(cl) == "builtin.append" {
+					return []int{0, 1}
+				}
+				return nil
+			}}) != fw.Yes {
+				continue
+			}
+			n++
+			for _, f := range fw.DeepFacts(dc.Fr, dc.Call.Block()) {
+				if strings.HasPrefix(f, "!") && strings.HasSuffix(f, "#1") && strings.Contains(f, ".EventID(") {
+					bad = f
+				}
+			}
+		}
+		switch {
+		case bad != "":
+			c.Fail(rule, construct, c.P.Pos(vc.Call.Pos()), "an event enters the verified list only under "+bad+": of two entries with the same event ID only the first is verified, and the other one (a forged copy in the other list) is returned unchecked")
+		case n > 0:
+			c.Ok(rule, construct, c.P.Pos(vc.Call.Pos()), fmt.Sprintf("%d append(s) build the verified list, none behind a seen-ID test", n))
+		default:
+			c.Undecided(rule, construct, "how the verified list is built was not traced")
+		}
+	}
 	c.CheckGate(rule, fn, "CheckStateResponse", fw.GuardCond("len(errors) == len(allEvents)", func(v ssa.Value) (bool, bool) {
 		s := fw.Sig(v)
 		if strings.HasPrefix(s, "(builtin.len(gmsl.VerifyAllEventSignatures(") && strings.Contains(s, " != builtin.len(") {
